@@ -2,6 +2,7 @@ package sim
 
 import (
 	"fmt"
+	"strings"
 	"time"
 
 	"pgregory.net/rapid"
@@ -31,6 +32,26 @@ var defaultWeights = map[string]int{
 	"list": 2, "list_dead": 1, "stats": 1, "lookup": 1,
 	"attempt": 3, "list_attempts": 2,
 }
+
+// oddHeaderValues: field values an HTTP server hands to its handler unchanged (no control characters
+// other than HTAB) that are awkward for whatever encodes the header map for storage.
+var oddHeaderValues = []string{
+	"caf\u00e9", "\U0001F3F4\U000E0067\U000E0062\U000E007F", "\U0010FFFD", "\U000F0000x", "\u2028line\u2029", "q\"uote\\back/slash", "<a&b>'",
+	"tab\there", "\u0085nel", "\ufeffbom", "\ufffd", "%00%ff", "a,b, c", "  ", "\u00a0nbsp", "{\"k\":[1]}", "\\U000e0067", "\\u00e9",
+	"@hex:fffe", "@hex:c328", "@hex:e9", "@hex:61ed", "@hex:eda080",
+}
+
+// the first oddHeaderValuesUTF8 entries are valid UTF-8: the Pull API answers in JSON and the Worker API in
+// proto3 strings, neither of which can carry other bytes, so the pull world draws from those only
+// (C07 speaks of the stored headers; the store and diff worlds draw from all of them)
+var oddHeaderValuesUTF8 = func() int {
+	for i, v := range oddHeaderValues {
+		if strings.HasPrefix(v, "@hex:") {
+			return i
+		}
+	}
+	return len(oddHeaderValues)
+}()
 
 var genRoutes = []string{"/r0", "/r1", "/r2"}
 var genTargets = []string{"pull", "https://t1.example/hook", "https://t2.example/hook"}
@@ -128,6 +149,12 @@ func (g *storeGen) envSpec(label string) EnvSpec {
 		e.Headers = map[string]string{"X-K": "v"}
 	} else if g.prof.Headers && rapid.IntRange(0, 3).Draw(t, label+".hdrs") != 0 {
 		e.Headers = map[string]string{"X-K": "v", "X-Request-Id": "r-" + label, "Content-Type": "application/json", "X-Empty": ""}
+	}
+	if g.prof.Headers && rapid.IntRange(0, 3).Draw(t, label+".oddhdr") == 0 {
+		if e.Headers == nil {
+			e.Headers = map[string]string{}
+		}
+		e.Headers["X-Odd"] = rapid.SampledFrom(oddHeaderValues).Draw(t, label+".oddval")
 	}
 	if g.prof.ExplicitTS {
 		switch rapid.IntRange(0, 9).Draw(t, label+".ts") {
@@ -322,7 +349,25 @@ func (g *storeGen) idiom() []Step {
 	deq := func(ttl time.Duration) Step {
 		return Step{Op: "dequeue", Route: route, Target: target, Batch: 1, TTL: ttl}
 	}
-	switch rapid.SampledFrom([]string{"dead", "acked", "expired", "mixed_batch", "fill", "prune_pass", "bulk", "newer_rows", "staggered", "staggered", "extended", "attempts"}).Draw(t, "i.kind") {
+	switch rapid.SampledFrom([]string{"dead", "acked", "expired", "mixed_batch", "fill", "prune_pass", "bulk", "newer_rows", "staggered", "staggered", "extended", "attempts", "buckets"}).Draw(t, "i.kind") {
+	case "buckets":
+		// more (route, target) buckets with a backlog than a backlog summary lists: a straggler on a quiet
+		// route (optionally due later than everything else), then 9-13 busier buckets, then the statistics
+		straggler := EnvSpec{ID: "new", Route: "/quiet", Target: target}
+		if rapid.Bool().Draw(t, "i.bnext") {
+			straggler.NextOff = int64p(-int64(time.Second))
+		}
+		out := []Step{{Op: "enqueue", Env: &straggler}, {Op: "advance", D: time.Millisecond}}
+		nb := rapid.IntRange(9, 13).Draw(t, "i.bn")
+		for b := 0; b < nb; b++ {
+			rt := fmt.Sprintf("/b%02d", b)
+			st := Step{Op: "enqueue_batch"}
+			for k := rapid.IntRange(2, 3).Draw(t, "i.bk"); k > 0; k-- {
+				st.Items = append(st.Items, EnvSpec{ID: "new", Route: rt, Target: target})
+			}
+			out = append(out, st)
+		}
+		return append(out, Step{Op: "stats"})
 	case "attempts":
 		// delivery-attempt records whose times do not follow the order in which
 		// they were recorded (several workers stamp their own), then a listing
